@@ -856,3 +856,9 @@ def _(ctx):
     gen = last_path(ps)
     # Ixy(0, b^2/c^2)/c^2 = ln(b^2/c^2)/(b^2/c^2 - 1)/c^2 ;  definition limit: (b^2 c^2 ln(b^2/c^2))/((-b^2)(b^2-c^2)(-c^2)) = ln(b^2/c^2)/(b^2 - c^2)
     ctx.prove_ring('Iabc.0bc', [(gen[1], ln((b * b) / (c * c)) / (b * b - c * c))])
+
+
+def fidelity(tier, seed):
+    """A-FRONT guard: the scalar functions of the files under contract, interpreter (float mode) vs compiled real code, bit for bit"""
+    from gm2v import fidelity as _fid
+    return _fid.scalar_guard(['src/gm2_ffunctions.cpp'], ['src/gm2_dilog.cpp', 'src/gm2_numerics.cpp'], n_calls=25 if tier == 'quick' else 200, seed=seed)
